@@ -188,15 +188,28 @@ class CallMixin:
     # ------------------------------------------------------------------ segment end / havoc
     def segment_end(self, st: State, anchor: str):
         """An atomic segment ends here (suspension point, opaque call or function exit):
-        prove the guarantee and the class invariants the environment relies on."""
+        prove the guarantee and the class invariants the environment relies on.  A clause whose footprint
+        (the heap components it reads) is untouched since the segment began holds trivially and is skipped."""
         if not self.spec or not self.spec.check_guarantee:
             return
+        changed = {c for c in self.comps if not (st.heap[c] is st.seg.get(c) or st.heap[c].eq(st.seg[c]))}
+        if not changed:
+            return
+        st.name_heap()
         old = HeapView(st.seg)
         new = HeapView(st.heap)
-        for (name, fn) in self.reg.guarantees:
+        for entry in self.reg.guarantees:
+            name, fn = entry[0], entry[1]
+            fp = entry[2] if len(entry) > 2 else None
+            if fp is not None and not (set(fp) & changed):
+                continue
             self.oblige(st, "guar", name, fn(old, new), anchor)
-        for (name, fn) in self.reg.invariants:
+        for entry in self.reg.invariants:
+            name, fn = entry[0], entry[1]
+            fp = entry[2] if len(entry) > 2 else None
             if name in self.spec.suspended_invariants:
+                continue
+            if fp is not None and not (set(fp) & changed):
                 continue
             self.oblige(st, "inv", name, fn(new), anchor)
 
@@ -205,18 +218,19 @@ class CallMixin:
         s2 = st.copy()
         old = HeapView(st.heap)
         newheap = self.fresh_heap("hv")
-        newheap["w_dict"] = st.heap["w_dict"]        # activation-local ghost
+        newheap["w_dict"] = st.heap["w_dict"]        # activation-local ghosts
+        newheap["mycalls"] = st.heap["mycalls"]
         s2.heap = newheap
         new = HeapView(newheap)
         s2.assume(new.alloc >= old.alloc)
-        for (name, fn) in self.reg.rely_clauses(self):
-            s2.assume(fn(old, new))
-        for (name, fn) in self.reg.invariants:
-            s2.assume(fn(new))
+        for entry in self.reg.rely_clauses(self):
+            s2.assume(entry[1](old, new))
+        for entry in self.reg.invariants:
+            s2.assume(entry[1](new))
         # objects owned by this activation are untouched
         for a in st.owned:
             for c, sort in self.comps.items():
-                if c == "alloc":
+                if c == "alloc" or not z3.is_array(newheap[c]) or newheap[c].sort().domain() != I:
                     continue
                 s2.assume(z3.Select(newheap[c], a) == z3.Select(st.heap[c], a))
         # this activation's cells: written only by this activation and its nonlocal-writing closures
@@ -238,9 +252,9 @@ class CallMixin:
         self.escape(st, f)
         if self.spec is not None:
             self.spec.on_opaque_call(self, st, f, args, anc)
+        st.heap["mycalls"] = z3.Store(st.heap["mycalls"], f.t, z3.Select(st.heap["mycalls"], f.t) + 1)
         self.segment_end(st, anc)
         s2 = self.havoc(st, anc)
-        calls = s2.ghost.get("calls")
         out = []
         ok = s2.copy()
         res = fresh("ret")
@@ -342,8 +356,8 @@ class CallMixin:
             return self.eval(node.args[1], st)
         if isinstance(f, ast.Name) and f.id not in st.env and f.id not in self.freevars:
             h = getattr(self, "bi_" + f.id, None)
-            if h is not None and self.world.resolve_global(self.module, f.id) in (None,) + tuple(
-                    [("ext", x) for x in self.reg.builtin_ext.get(f.id, [])]):
+            rg = self.world.resolve_global(self.module, f.id)
+            if h is not None and (rg is None or rg[0] == "ext"):
                 return h(node, st)
         # general case: evaluate callee, then arguments
         out = []
@@ -438,7 +452,7 @@ class CallMixin:
         return self.opaque_call(st, recv, pos + list(kw.values()) + list(packs), None, f"call(.{meth})")
 
     # ------------------------------------------------------------------ contracted call (modular)
-    def bind_params(self, fi, spec, pos, kw, env=None):
+    def bind_params(self, fi, spec, pos, kw, env=None, st=None):
         """match arguments against the callee's real signature (read from its AST)"""
         a = fi.node.args
         names = [x.arg for x in a.posonlyargs + a.args]
@@ -448,9 +462,24 @@ class CallMixin:
             if d is not None:
                 defaults[x.arg] = d
         bound: dict[str, SV] = {}
-        if len(pos) > len(a.posonlyargs + a.args):
-            if a.vararg is None:
-                raise Untranslatable(f"too many positional arguments for {fi.qual}")
+        npos = len(a.posonlyargs + a.args)
+        if len(pos) > npos and a.vararg is None:
+            raise Untranslatable(f"too many positional arguments for {fi.qual}")
+        if a.vararg is not None:
+            extra = pos[npos:]
+            items = z3.K(I, VNone)
+            for i, v in enumerate(extra):
+                items = z3.Store(items, i, v.t)
+            ta = st.new_tuple(items, z3.IntVal(len(extra)))
+            from .comps import tmem_intro
+            st.assume(tmem_intro(items, z3.IntVal(len(extra))))
+            bound[a.vararg.arg] = SV(vref(ta), TUP(ANY))
+        if a.kwarg is not None:
+            da = st.new_dict()
+            for n, v in kw.items():
+                if n not in names:
+                    st.d_store(da, sid(n), v.t)
+            bound[a.kwarg.arg] = SV(vref(da), DICT(TSTR, ANY))
         for n, v in zip([x.arg for x in a.posonlyargs + a.args], pos):
             bound[n] = v
         for n, v in kw.items():
@@ -485,7 +514,7 @@ class CallMixin:
         if fi is not None:
             if fi.is_async and not awaited and not spec.returns_coroutine_ok:
                 raise Untranslatable(f"coroutine function {qual} called without await")
-            args = self.bind_params(fi, spec, pos, kw)
+            args = self.bind_params(fi, spec, pos, kw, st=st)
         else:
             args = spec.bind(pos, kw)
         if env is not None:
@@ -511,13 +540,14 @@ class CallMixin:
             s2.assume(s2.heap["alloc"] >= old_alloc)
             if not spec.assumed:
                 old, new = HeapView(st.heap), HeapView(s2.heap)
-                for (name, fn) in self.reg.guarantees:
-                    s2.assume(fn(old, new))
+                for entry in self.reg.guarantees:
+                    s2.assume(entry[1](old, new))
         out = []
         ok = s2.copy()
         rt = fresh("res")
         res = self.typed(ok, rt, spec.ret_type)
         F = Frame(self, st, ok, args, result=res)
+        F.ghost = spec.fresh_ghost_outputs(self, ok)
         for (name, f) in list(spec.ensures(F)) + list(spec.call_site_extra(F)):
             ok.assume(f)
         if self.feasible(ok):
@@ -527,6 +557,7 @@ class CallMixin:
             bad.tags.append(f"{anchor}-raises")
             e = self.unknown_exception(bad)
             F = Frame(self, st, bad, args, exc=e)
+            F.ghost = spec.fresh_ghost_outputs(self, bad)
             for (name, f) in spec.raises(F):
                 bad.assume(f)
             if self.feasible(bad):
